@@ -20,7 +20,7 @@ RULE = ('seeded worlds biased to channels absent from segments, multi-chunk segm
         '{None,+-1,+-2,+-3,0} and integer indices in [-len-2,len+1], each run on a lazily opened and an eagerly '
         'read handle and compared with numpy indexing on the full array. distinct = (segment shape sequence, '
         'cut class); non-trivial = at least one non-empty window compared')
-EXPECTED_PROBES = ['concurrent-readers', 'window-ends-in-multichunk-after-gap', 'window-in-truncated-last-chunk', 'empty-window-at-boundary',
+EXPECTED_PROBES = ['file-object-dropped', 'concurrent-readers', 'window-ends-in-multichunk-after-gap', 'window-in-truncated-last-chunk', 'empty-window-at-boundary',
                    'daqmx-window']
 
 
@@ -63,7 +63,9 @@ def generate(rng, tier):
                    'ops': [dict(r) for r in rng.sample(reqs, min(len(reqs), rng.randint(2, 3)))]}
     return {'spec': spec, 'raw_ts': raw_ts, 'cut': cut, 'ops': reqs,
             'short_seed': rng.getrandbits(32) if rng.random() < 0.3 else None, 'debug_log': rng.random() < 0.05,
-            'memmap': rng.random() < 0.12, 'threads': threads}
+            'memmap': rng.random() < 0.12, 'threads': threads,
+            # the caller keeps the channel objects and lets go of the lazily opened TdmsFile
+            'drop_file': rng.random() < 0.1}
 
 
 def _sig(spec):
@@ -113,6 +115,13 @@ def execute(case):
             res.skipped_ops += len(case['ops'])
             res.ev('open-raises', type(exc).__name__)
             return res
+        if case.get('drop_file'):
+            import gc
+            kept = ops.KeptChannels(lazy, w)
+            del lazy
+            gc.collect()
+            lazy = kept
+            res.probe('file-object-dropped')
         fulls = {}
         keeper = ops.Keeper()
         for path, ch in w.chans.items():
